@@ -12,6 +12,7 @@ PASS_THROUGH = (
     r'^core::ops::deref::Deref::deref$',
     r'^core::ops::deref::DerefMut::deref_mut$',
     r'^core::cell::UnsafeCell::<.*>::get$',
+    r'^iceoryx2_bb_concurrency::cell::UnsafeCell::<.*>::(get|get_mut)$',
     r'^core::cell::UnsafeCell::<.*>::get_mut$',
     r'^core::cell::UnsafeCell::<.*>::raw_get$',
     r'^core::mem::maybe_uninit::MaybeUninit::<.*>::(as_ptr|as_mut_ptr|assume_init_ref|assume_init_mut)$',
@@ -29,8 +30,8 @@ PASS_THROUGH = (
     r'^core::result::Result::<.*>::(as_ref|as_mut|unwrap|expect)$',
     r'^iceoryx2_bb_elementary::relocatable_pointer::RelocatablePointer::<.*>::as_ptr$',
     r'^iceoryx2_bb_elementary::relocatable_pointer::RelocatablePointer::<.*>::as_mut_ptr$',
-    r'.* as iceoryx2_bb_elementary_traits::pointer_trait::PointerTrait<.*>>::(as_ptr|as_mut_ptr)$',
-    r'^iceoryx2_bb_elementary_traits::pointer_trait::PointerTrait::(as_ptr|as_mut_ptr)$',
+    r'.* as iceoryx2_bb_elementary_traits::pointer::Pointer<.*>>::(as_ptr|as_mut_ptr)$',
+    r'^iceoryx2_bb_elementary_traits::pointer::Pointer::(as_ptr|as_mut_ptr)$',
     r'^iceoryx2_bb_elementary::owning_pointer::OwningPointer::<.*>::(as_ptr|as_mut_ptr)$',
     r'^alloc::sync::Arc::<.*>::as_ptr$',
     r'^core::pin::Pin::<.*>::(get_ref|get_mut|as_ref|as_mut)$',
